@@ -434,7 +434,10 @@ def gen_fields(draw, opts, types_by_name, used, max_fields, const_only=False, re
     if const_only:
         n = max(1, min(n, 2))
     enum_values = [(t, v) for t in types_by_name.values() if t["kind"] == "enum" for v in t["values"]]
-    for _ in range(n):
+    # where the constants sit matters to the generator (the "last field" of a block gets special cursor accessors): make
+    # levels that begin and/or end with a constant (through its type, or a field-level constant) frequent
+    ends = draw(st.sampled_from(["any", "any", "any", "const_last", "const_last", "const_first", "const_both"]))
+    for i_ in range(n):
         fn = _names(draw, used, related=list(related))
         f = {"name": fn, "id": draw(st.sampled_from([0, 1, 2, 3, 100, 65535])), "offset": None, "presence": "required", "value_ref": None}
         choice = draw(st.sampled_from(["prim"] * 3 + (["public"] * 5 if types_by_name else []) + (["primconst"] if enum_values else [])))
@@ -442,6 +445,9 @@ def gen_fields(draw, opts, types_by_name, used, max_fields, const_only=False, re
         if const_only:
             if not const_types and not enum_values:
                 break
+            choice = draw(st.sampled_from((["consttype"] * 2 if const_types else []) + (["primconst"] if enum_values else [])))
+        elif n >= 2 and (const_types or enum_values) and (
+                (i_ == n - 1 and ends in ("const_last", "const_both")) or (i_ == 0 and ends in ("const_first", "const_both"))):
             choice = draw(st.sampled_from((["consttype"] * 2 if const_types else []) + (["primconst"] if enum_values else [])))
         if choice == "prim":
             f["type"] = draw(st.sampled_from(list(PRIMS)))
